@@ -4,6 +4,7 @@ go 1.25.0
 
 require (
 	github.com/cenkalti/rain/v2 v2.0.0
+	go.etcd.io/bbolt v1.5.0
 	pgregory.net/rapid v1.3.0
 )
 
